@@ -131,6 +131,17 @@ pub mod oracle {
         }
     }
 
+    /// harness-side: fix the value of the next not-yet-created cell of a stream to a concrete value
+    /// (used to make a slot choice concrete: one representative draw per slot, the other draws stay symbolic)
+    pub fn preset(id: usize, ctr: usize, v: u64) {
+        unsafe {
+            assert!(id < NUSED && ctr < ND && FILLED[id] == ctr, "oracle model: preset must extend the stream in order");
+            DRAWS[id][ctr] = v;
+            FILLED[id] = ctr + 1;
+            NDRAWN += 1;
+        }
+    }
+
     /// number of cells of stream `id` that have been looked at so far
     pub fn filled(id: usize) -> usize {
         unsafe { FILLED[id] }
